@@ -117,6 +117,7 @@ def run(chk, rng, deep, name="words-in-context"):
         for t in ([] if li == "-" else li.split()):
             f = t.split(":")
             by_off.setdefault(int(f[1], 16), []).append((int(f[2]), f[3]))
+        lanes = None
         for (off, slot, ws), pk in zip(meta, sp.split(" / ")):
             if pk in ("P", "-"):
                 continue
@@ -128,6 +129,18 @@ def run(chk, rng, deep, name="words-in-context"):
                 got = by_off.get(woff, [])
                 codes = sorted(c for c, _ in got)
                 exp = expected_codes(cls, ok, w, sod)
+                if cls in (0, 1):
+                    # the IHW that governs the data words from here on (also the IHW of a continuation page): lanes = bits 27:0
+                    lanes = int.from_bytes(w[0:4], "little") & 0x0FFFFFFF
+                lane_exp = None
+                if mode == "all" and (cls in (7, 11) or (cls == 6 and not sod)) and w[9] in VALID_DATA and lanes is not None:
+                    # documented lane rules under `check all`: the word's lane is active in the governing IHW ([E72] inner barrel,
+                    # [E71] outer barrels), an outer-barrel input number is at most 6 ([E73])
+                    from . import streams as _st
+                    if w[9] >> 5 == 1:
+                        lane_exp = [] if (lanes >> (w[9] & 0x1F)) & 1 else [72]
+                    else:
+                        lane_exp = ([] if (lanes >> _st.ob_lane(w[9])) & 1 else [71]) + ([73] if (w[9] & 7) > 6 else [])
                 if cls in (6, 7, 11):
                     sod = False
                 nwords += 1
@@ -138,6 +151,9 @@ def run(chk, rng, deep, name="words-in-context"):
                 else:
                     fam = {30, 40, 50, 60, 70, 990, 991, 992}
                     wrong = sorted(c for c in codes if c in fam) != exp
+                    if lane_exp is not None and sorted(c for c in codes if c in (71, 72, 73)) != sorted(lane_exp):
+                        wrong = True
+                        exp = sorted(exp + lane_exp)
                 if wrong or bad_quote:
                     chk.spec_violations.append({
                         "stream": name, "mode": mode, "case": line[:1500], "word_offset": "0x%X" % woff, "word": itsgen.hexs(w),
